@@ -54,7 +54,7 @@ CHECKS = {
          "DESIGN.md#c16"),
  "C17": ("H", "model_checking",
          "bounded-exhaustive input enumeration plus explicit-state BFS to fixpoint over the real TreeCache with exact-state dedup through hook H2",
-         "Every tree-hash routine (tree_hash, tree_hash_cached, tree_hash_from_bytes on plain and back-reference serialisations, TreeHasher, curry_tree_hash/CurriedProgram, and the puzzle hashes / coin ids reported by the five block consumers) returns the definitional SHA-256 tree hash for every atom in both internal representations over a 211-leaf alphabet, every small-integer atom below 2^20 (quick) / 2^26 (thorough), every DAG of <=4/5 pairs over 3-4 leaf kinds, 10^5-deep and 10^5-long lists, 2^20-leaf DAGs and every currying of <=4 arguments over 8/12 values. For the shared memo cache the complete state graph is explored: every history of visit_tree / tree_hash_cached calls of any length on every DAG of <=3 (quick) / <=4 (thorough) pairs and on a fixed 9-pair DAG with pairs allocated between calls (BFS to fixpoint; 2.6e5 / 3.2e6 states), every transition's hash and every cache entry checked against the reference; larger DAGs by bounded sequences.",
+         "Every tree-hash routine (tree_hash, tree_hash_cached, tree_hash_from_bytes on plain and back-reference serialisations, TreeHasher, curry_tree_hash/CurriedProgram, and the puzzle hashes / coin ids reported by the five block consumers) returns the definitional SHA-256 tree hash for every atom in both internal representations over a 211-leaf alphabet, every small-integer atom below 2^20 (quick) / 2^26 (thorough), every DAG of <=4/5 pairs over 3-4 leaf kinds, 10^5-deep and 10^5-long lists, 2^20-leaf DAGs and every currying of <=4 arguments over 8/12 values. For the shared memo cache the complete state graph is explored: every history of visit_tree / tree_hash_cached calls of any length on every DAG of <=3 (quick) / <=4 (thorough) pairs and on a fixed 9-pair DAG with pairs allocated between calls and at most 1 (quick) / 2 (thorough) direct TreeCache::insert(pair, its hash) priming calls (BFS to fixpoint), every transition's hash and every cache entry checked against the reference; larger DAGs by bounded sequences.",
          "trusts: sha2 crate and mc::sx reference; clvmr 0.17.7 allocator and serialisers (leaf bytes read back, compressed forms re-parsed before blaming /repo); hook H2 TreeCache::verif_state as exact state key; one append-only allocator per cache",
          "DESIGN.md#c17"),
  "C07": ("E", "exploration",
@@ -84,8 +84,8 @@ CHECKS = {
          "DESIGN.md#c09"),
  "C10": ("H", "model_checking",
          "exhaustive history search over add_spend_bundles/finalize on fresh real builders with decoding, signature, consensus-cost and differential undo oracles",
-         "Every history of <=3 (quick, 16276 per builder) / <=4 (thorough, 406901 per builder) add attempts over 25 letters (bundle shape: one spend, two spends sharing its puzzle, 40 kB solution, undecodable reveal, batch of two; declared cost: truthful, landing exactly on the block limit (computed by a dry run), that+1 (late rejection -> undo), limit+1 (early rejection), 0) followed by finalize is executed on a fresh BlockBuilder and a fresh InternedBlockBuilder: no panic; the finalized generator decodes (back-reference parser + harness) to exactly the multiset of spends of the accepted attempts; the signature is the harness's aggregate of exactly their signatures; cost <= max; with truthful costs the returned cost equals what run_block_generator2 charges for the generator; cost() before finalize >= final cost; and the history with the rejected attempts deleted yields byte-identical generator, signature and cost.",
-         "trusts: run_spendbundle for the truthful declared cost, clvmr's back-reference parser for decoding, run_block_generator2 as the consensus cost; known finding: cost() of a builder with no accepted add underestimates the empty block",
+         "Every history of <=3 (quick, 16276 per builder) / <=5 (thorough, 10172526 per builder) add attempts over 25 letters (bundle shape: one spend, two spends sharing its puzzle, 40 kB solution, undecodable reveal, batch of two; declared cost: truthful, landing exactly on the block limit (computed by a dry run), that+1 (late rejection -> undo), limit+1 (early rejection), 0) followed by finalize is executed on a fresh BlockBuilder and a fresh InternedBlockBuilder: no panic; the finalized generator decodes (back-reference parser + harness) to exactly the multiset of spends of the accepted attempts; the signature is the harness's aggregate of exactly their signatures; cost <= max; with truthful costs the returned cost equals what run_block_generator2 charges for the generator; cost() before finalize >= final cost; and the history with the rejected attempts deleted yields byte-identical generator, signature and cost.",
+         "trusts: run_spendbundle for the truthful declared cost, clvmr's back-reference parser for decoding, run_block_generator2 as the consensus cost; known findings: cost() of a builder with no accepted add underestimates the empty block; after two adds rejected after serialisation the compressed generator's bytes (back-reference choice, length and hence cost) differ from the history without them while tree and signature are equal (clvmr TreeCache state survives restore)",
          "DESIGN.md#c10"),
  "C05": ("E", "exploration",
          "bounded-exhaustive enumeration of signed base cases and single-point tamperings through every verification path, with the harness's own rule table and signer as oracle",
